@@ -210,7 +210,51 @@ def rule_ab(ctx, ix):
             if exc_txt and len(exc_txt) == len(W):
                 continue
             an.must_announce(RA, wpred, m, extra_guards=extra, what_write=what, exceptions=exc_txt or None)
-            an.no_spurious(RB, wpred, m, flag=flag, exception=SPURIOUS_EXC.get((f.construct, m)))
+            an.no_spurious(RB, _definite(wpred, f), m, flag=flag, exception=SPURIOUS_EXC.get((f.construct, m)))
+    # the same messages broadcast from other methods of the class (a helper the removal was moved into, a sweep that announces
+    # by itself): there too the broadcast has to follow a change that really happened
+    rows = {(cq, name) for cq, name, *_ in TABLE}
+    for cq, name, wpred, msgs, extra, what, flag, exc in TABLE:
+        if name.endswith(':setter'):
+            continue
+        cls = ix.cls(cq)
+        for oname, mem in sorted(cls.members.items()):
+            g = mem.func
+            if g is None or g.cls is not cls or oname == name or (cq, oname) in rows or ix.helper_status(g) == 'inlined':
+                continue
+            if not any(isinstance(c_, ast.Call) and call_name(c_) == 'broadcast' for c_ in ast.walk(g.node)):
+                continue
+            an = Announcer(ctx, g)
+            sent = {m_ for _, m_, _ in an.broadcast_nodes()}
+            for m in msgs:
+                if MSG + m in sent:
+                    an.no_spurious(RB, _definite(wpred, g), m, exception=SPURIOUS_EXC.get((g.construct, m)))
+
+
+def _definite(wpred, f):
+    """The write predicate restricted to writes that really change something: `d.pop(k, default)` / `s.discard(k)` do nothing
+    when the key is absent, so they count only where the key is known to be present (the statement runs under `k in d`)."""
+    from .. import cond
+
+    def pred(e):
+        if not wpred(e):
+            return False
+        for c in ast.walk(e):
+            if isinstance(c, ast.Call) and isinstance(c.func, ast.Attribute) and \
+                    (c.func.attr == 'pop' and len(c.args) == 2 or c.func.attr == 'discard' and len(c.args) == 1):
+                key, coll = unparse(c.args[0]), unparse(c.func.value)
+                st = None
+                for x in ast.walk(f.node):
+                    if isinstance(x, ast.stmt) and any(y is c for y in ast.walk(x)) and not isinstance(x, (ast.If, ast.For, ast.While, ast.With, ast.Try, ast.FunctionDef)):
+                        st = x
+                pc = cond.path_condition(f.node, st, expand=False) if st is not None else None
+                try:
+                    if pc is None or not cond.implies(pc, cond.T('in|%s|%s' % (key, coll))):
+                        return False
+                except ValueError:
+                    return False
+        return True
+    return pred
 
 
 # ---------------------------------------------------------------------------------------
